@@ -76,7 +76,12 @@ func (r *fround) fail(code *atomic.Int32, c int32, msg string) {
 func TestRefCountFree(t *testing.T) {
 	dur := time.Duration(*freeMS) * time.Millisecond
 	start := time.Now()
-	rounds, adds := 0, 0
+	rounds, adds, otherKind := 0, 0, 0
+	stallWait := 5 * time.Second
+	if *hist.FreeWant != 0 && *hist.FreeWant != 6 {
+		// stalls are not what this run is asked about (they are skipped): do not spend the run waiting for them
+		stallWait = 30 * time.Millisecond
+	}
 	var code atomic.Int32
 	var failed *fround
 	for h := 0; time.Since(start) < dur && failed == nil; h++ {
@@ -137,7 +142,7 @@ func TestRefCountFree(t *testing.T) {
 					})
 					rd.log(g, "added", f.last.Load())
 					// a held reference is told a value soon (the resolver returns at once)
-					deadline := time.Now().Add(5 * time.Second)
+					deadline := time.Now().Add(stallWait)
 					for f.last.Load() == 0 && !rd.bad.Load() {
 						if time.Now().After(deadline) {
 							rd.fail(&code, 6, "a held reference was not told any value for 5 s although the RefCount has a context and the resolver returns at once")
@@ -159,7 +164,7 @@ func TestRefCountFree(t *testing.T) {
 		adds += ng * 12
 		if !rd.bad.Load() {
 			// every reference is gone: every value is released (exactly once) shortly afterwards
-			deadline := time.Now().Add(5 * time.Second)
+			deadline := time.Now().Add(stallWait)
 			for {
 				pending := int64(0)
 				vals.Range(func(_, v any) bool {
@@ -180,6 +185,12 @@ func TestRefCountFree(t *testing.T) {
 		}
 		cancel()
 		if rd.bad.Load() {
+			if *hist.FreeWant != 0 && int(code.Load()) != *hist.FreeWant {
+				// not the kind of failure this run was asked about: count it and go on
+				otherKind++
+				code.Store(0)
+				continue
+			}
 			failed = rd
 		}
 	}
@@ -188,6 +199,7 @@ func TestRefCountFree(t *testing.T) {
 		t.Fatal(err)
 	}
 	w.Count("free.rounds", rounds)
+	w.Count("free.failures_of_the_other_kind_skipped", otherKind)
 	w.Count("free.addref_release_pairs", adds)
 	if failed == nil {
 		w.Close()
